@@ -631,14 +631,20 @@ ACCUMULATING = {
     # a constraint call without columns adds nothing (primary_key() is like that): no empty UNIQUE ()
     "create_unique_then_empty": lambda c: (lambda P, Q, t, u, v: Q.create_table("n").columns(P.Column("m1q", "INT")).unique("m1q").unique())(*_acc(c)),
     "create_unique_empty_alone": lambda c: (lambda P, Q, t, u, v: Q.create_table("n").columns(P.Column("m1q", "INT")).unique())(*_acc(c)),
+    # ... and the other way round: an item that the star does not make redundant, called after it
+    "select_star_then_aliased": lambda c: (lambda P, Q, t, u, v: Q.from_(t).select("*").select(t.a.as_("m1q")))(*_acc(c)),
+    "select_table_star_then_aliased": lambda c: (lambda P, Q, t, u, v: Q.from_(t).select(t.star).select(t.a.as_("m1q")))(*_acc(c)),
+    "select_star_then_fn": lambda c: (lambda P, Q, t, u, v: Q.from_(t).select("*", P.functions.Upper(t.m1q)))(*_acc(c)),
+    "returning_star_then_aliased": lambda c: (lambda P, Q, t, u, v: Q.into(t).insert(1).returning("*", t.a.as_("m1q")))(*_acc(c)),
+    "returning_table_star_then_aliased": lambda c: (lambda P, Q, t, u, v: Q.into(t).insert(1).returning(t.star).returning(t.a.as_("m1q")))(*_acc(c)),
     # an empty criterion after a real one is neutral, as it is for where()
     "having_then_empty": lambda c: (lambda P, Q, t, u, v: Q.from_(t).select(t.a).groupby(t.a).having(t.m1q == 1).having(P.Criterion.all([])))(*_acc(c)),
     "having_empty_alone": lambda c: (lambda P, Q, t, u, v: Q.from_(t).select(t.m1q).groupby(t.a).having(P.Criterion.all([])))(*_acc(c)),
     "agg_filter_then_empty": lambda c: (lambda P, Q, t, u, v: Q.from_(t).select(P.functions.Sum(t.a).filter(t.m1q == 1).filter(P.Criterion.any([]))))(*_acc(c)),
     "agg_filter_empty_alone": lambda c: (lambda P, Q, t, u, v: Q.from_(t).select(P.functions.Sum(t.m1q).filter(P.Criterion.all([]))))(*_acc(c)),
 }
-CLASS_ONLY = {"update_orderby_name": ("mysql", "sqlite", "postgresql"), "update_orderby_name_then_from": ("mysql", "sqlite", "postgresql"), "returning": ("postgresql",), "distinct_on": ("postgresql",), "returning_not_then_star": ("postgresql",), "returning_json_then_star": ("postgresql",)}
-FIRST_ONLY = {"update_orderby_name", "update_orderby_name_then_from", "create_unique_then_empty", "create_unique_empty_alone", "select_fn_then_star", "select_aliased_then_star", "select_not_then_table_star", "select_criterion_then_table_star", "returning_not_then_star",
+CLASS_ONLY = {"returning_star_then_aliased": ("postgresql",), "returning_table_star_then_aliased": ("postgresql",), "update_orderby_name": ("mysql", "sqlite", "postgresql"), "update_orderby_name_then_from": ("mysql", "sqlite", "postgresql"), "returning": ("postgresql",), "distinct_on": ("postgresql",), "returning_not_then_star": ("postgresql",), "returning_json_then_star": ("postgresql",)}
+FIRST_ONLY = {"select_star_then_aliased", "select_table_star_then_aliased", "select_star_then_fn", "returning_star_then_aliased", "returning_table_star_then_aliased", "update_orderby_name", "update_orderby_name_then_from", "create_unique_then_empty", "create_unique_empty_alone", "select_fn_then_star", "select_aliased_then_star", "select_not_then_table_star", "select_criterion_then_table_star", "returning_not_then_star",
               "returning_json_then_star", "having_then_empty", "having_empty_alone", "agg_filter_then_empty", "agg_filter_empty_alone"}
 
 
@@ -663,7 +669,7 @@ def check_accumulate(case):
     if name in FIRST_ONLY:
         if not pos1:
             return [(mksig("accumulate", name, "call_lost"), "%s: the item of the first call (m1q) is missing in %r" % (name, sql))]
-        if name.endswith("_star") and not any(tk.text == "*" for tk in toks):
+        if "star" in name and not any(tk.text == "*" for tk in toks):
             return [(mksig("accumulate", name, "call_lost"), "%s: the star of the second call is missing in %r" % (name, sql))]
         if lex.balanced(toks) and any(a.text == "(" and b.text == ")" for a, b in zip(toks, toks[1:]) if a.kind == "punct" and b.kind == "punct") and name.startswith("create_"):
             return [(mksig("accumulate", name, "empty_brackets"), "%s renders an empty bracket pair: %r" % (name, sql))]
